@@ -964,6 +964,7 @@ var extAliases = map[string]struct {
 	"Coins.Sub":      {"(github.com/cosmos/cosmos-sdk/types.Coins).Sub", "sdk.Coins"},
 	"Coins.IsAnyGT":  {"(github.com/cosmos/cosmos-sdk/types.Coins).IsAnyGT", "Bool"},
 	"bytes.Join":     {"bytes.Join", "Bz"},
+	"FieldVal.Equals": {"(*github.com/decred/dcrd/dcrec/secp256k1/v4.FieldVal).Equals", "Bool"},
 	"big.Int.Bytes":  {"(*math/big.Int).Bytes", "Bz"},
 	"PublicKey.X":    {"(*github.com/decred/dcrd/dcrec/secp256k1/v4.PublicKey).X", "Int"},
 	"NewDecCoinsFromCoins": {"github.com/cosmos/cosmos-sdk/types.NewDecCoinsFromCoins", "sdk.DecCoins"},
